@@ -48,6 +48,8 @@ func main() {
 		code = cmdReplay(os.Args[2:])
 	case "expect":
 		code = cmdExpect(os.Args[2:])
+	case "vacuity":
+		code = cmdVacuity(os.Args[2:])
 	case "loops":
 		prog, err := LoadProgram([]string{os.Args[2]})
 		if err != nil {
@@ -783,6 +785,17 @@ func cmdCheck(args []string) int {
 				os.WriteFile(filepath.Join(outRoot(), "evidence", prop+".json"), data, 0o644)
 				return 2
 			}
+		}
+	}
+	// thorough tier: vacuity audit of the property's implication clauses (A ==> B with A unreachable proves nothing)
+	if *tier == "thorough" {
+		vr := vacuityAudit(prog, cs, []string{prop}, 10)
+		ev.Coverage["vacuity_audit"] = vr
+		if len(vr.Vacuous) > 0 {
+			fmt.Fprintf(os.Stderr, "broken check: clauses of %s hold vacuously (antecedent unreachable): %v\n", prop, vr.Vacuous)
+			data, _ := json.MarshalIndent(ev, "", " ")
+			os.WriteFile(filepath.Join(outRoot(), "evidence", prop+".json"), data, 0o644)
+			return 2
 		}
 	}
 	// thorough tier: the must-fail corpus of this property (seeded changes on scratch copies; each must raise a violation)
